@@ -401,7 +401,19 @@ def c16_8(ctx):
     spec = "descriptor:parse_partial_key_record"
     mod, fn = rl.get(ctx, spec)
     f = Folder(ctx.repo, mod.name)
-    pats = [f.fold(c.args[0]) for c in ast.walk(fn) if isinstance(c, ast.Call) and call_name(c) in ("match", "fullmatch", "search", "compile") and c.args]
+    pats = []
+    for c in ast.walk(fn):
+        if not (isinstance(c, ast.Call) and call_name(c) in ("match", "fullmatch", "search", "compile") and c.args and isinstance(c.func, ast.Attribute)):
+            continue
+        recv = c.func.value
+        if dotted(recv) == "re":
+            pats.append(f.fold(c.args[0]))
+        elif isinstance(recv, ast.Name):
+            # a pattern compiled once at module level: PATTERN = re.compile(r"...")
+            r_ = ctx.repo.resolve_name(mod.name, recv.id)
+            v = ctx.repo.modules[r_[0]].constants.get(r_[1]) if r_ else None
+            if isinstance(v, ast.Call) and call_name(v) == "compile" and v.args:
+                pats.append(Folder(ctx.repo, r_[0]).fold(v.args[0]))
     pats = [p for p in pats if isinstance(p, str)]
     if not pats:
         raise AnalysisError("parse_partial_key_record: regular expression not found")
